@@ -49,8 +49,10 @@ theorem probeKeys_cases (hs : TS Lx Ly Lz a x y z) :
     (a = 0 ∧ x = 2 * (Lx : Int) - 2 ∧ probeKeys Lx Ly Lz a x y z = [[x + 1, y, z]]) ∨
     (a = 0 ∧ x ≠ 2 * (Lx : Int) - 2 ∧ (x + y + z) % 4 = 2 ∧ 2 ≤ z ∧
       probeKeys Lx Ly Lz a x y z = [[x, y, z - 1]]) ∨
-    (a = 0 ∧ x = 2 ∧ y = 2 ∧ QC Lx Ly Lz 2 2 z ∧
+    (a = 0 ∧ x = 2 ∧ y = 2 ∧ QC Lx Ly Lz 2 2 z ∧ (4 ≤ Lx ∧ 4 ≤ Ly) ∧
       probeKeys Lx Ly Lz a x y z = [[3, 2, z], [4, 2, z - 1], [3, 2, z - 2]]) ∨
+    (a = 0 ∧ x = 2 ∧ y = 2 ∧ QC Lx Ly Lz 2 2 z ∧ (Lx = 3 ∧ 5 ≤ Ly) ∧
+      probeKeys Lx Ly Lz a x y z = [[2, 3, z], [2, 4, z - 1], [2, 3, z - 2]]) ∨
     (a = 0 ∧ (x + y + z) % 4 = 0 ∧ z < 2 * (Lz : Int) - 2 ∧ ¬ PT Lx Ly Lz 0 x y (z + 2) ∧
       probeKeys Lx Ly Lz a x y z = [[x, y, z + 1]]) := by
   obtain ⟨ha, hv, hp, hc⟩ := hs
@@ -81,15 +83,21 @@ theorem probeKeys_cases (hs : TS Lx Ly Lz a x y z) :
           · unfold QC at hc; omega
         exact ⟨rfl, hx, h2, hz, by simp [hx, h2]⟩
       · by_cases hq : QC Lx Ly Lz x y z
-        · right; right; right; right; right; right; left
-          have hq' := hq
+        · have hq' := hq
           unfold QC at hq'
-          obtain ⟨hx2, hy2, _⟩ := hq'
-          refine ⟨rfl, hx2, hy2, ?_, ?_⟩
-          · rw [hx2, hy2] at hq; exact hq
-          · rw [if_neg (by decide), if_neg (by decide), if_neg (by decide), if_neg hx, if_neg h2,
-              if_pos hq]
-        · right; right; right; right; right; right; right
+          obtain ⟨hx2, hy2, _, _, _, hgd⟩ := hq'
+          by_cases h4 : 4 ≤ Lx
+          · right; right; right; right; right; right; left
+            refine ⟨rfl, hx2, hy2, ?_, ⟨h4, by omega⟩, ?_⟩
+            · rw [hx2, hy2] at hq; exact hq
+            · rw [if_neg (by decide), if_neg (by decide), if_neg (by decide), if_neg hx, if_neg h2,
+                if_pos hq, if_pos h4]
+          · right; right; right; right; right; right; right; left
+            refine ⟨rfl, hx2, hy2, ?_, by omega, ?_⟩
+            · rw [hx2, hy2] at hq; exact hq
+            · rw [if_neg (by decide), if_neg (by decide), if_neg (by decide), if_neg hx, if_neg h2,
+                if_pos hq, if_neg h4]
+        · right; right; right; right; right; right; right; right
           rcases hc with hc | hc | hc | hc
           · exact absurd hc hx
           · exact absurd hc.1 h2
@@ -104,7 +112,7 @@ theorem probeKeys_qubits (hs : TS Lx Ly Lz a x y z) :
   have hv' := hv
   unfold VertexLoc inE2 inE at hv'
   rcases probeKeys_cases hs with ⟨rfl, e⟩ | ⟨rfl, e⟩ | ⟨rfl, _, e⟩ | ⟨rfl, _, e⟩ | ⟨rfl, _, e⟩ |
-    ⟨rfl, _, h2, hz, e⟩ | ⟨rfl, rfl, rfl, hq, e⟩ | ⟨rfl, h0, hz, _, e⟩ <;> rw [e] <;> intro q hq'
+    ⟨rfl, _, h2, hz, e⟩ | ⟨rfl, rfl, rfl, hq, hg, e⟩ | ⟨rfl, rfl, rfl, hq, hg, e⟩ | ⟨rfl, h0, hz, _, e⟩ <;> rw [e] <;> intro q hq'
   · simp only [List.mem_cons, List.not_mem_nil, or_false] at hq'; subst hq'
     exact triKeys_sub (xleg_mem hv hp)
   · simp only [List.mem_cons, List.not_mem_nil, or_false] at hq'; subst hq'
@@ -120,7 +128,10 @@ theorem probeKeys_qubits (hs : TS Lx Ly Lz a x y z) :
     have := zleg_mem hv hp (by rw [e1]; omega)
     rw [e1] at this
     exact triKeys_sub this
-  · obtain ⟨q1, q2, q3⟩ := q_qubits hq
+  · obtain ⟨q1, q2, q3⟩ := q_qubits hq hg
+    simp only [List.mem_cons, List.not_mem_nil, or_false] at hq'
+    rcases hq' with rfl | rfl | rfl <;> assumption
+  · obtain ⟨q1, q2, q3⟩ := r_qubits hq hg
     simp only [List.mem_cons, List.not_mem_nil, or_false] at hq'
     rcases hq' with rfl | rfl | rfl <;> assumption
   · simp only [List.mem_cons, List.not_mem_nil, or_false] at hq'; subst hq'
@@ -131,10 +142,11 @@ theorem probeKeys_qubits (hs : TS Lx Ly Lz a x y z) :
 
 theorem probeKeys_nodup (hs : TS Lx Ly Lz a x y z) : (probeKeys Lx Ly Lz a x y z).Nodup := by
   rcases probeKeys_cases hs with ⟨rfl, e⟩ | ⟨rfl, e⟩ | ⟨rfl, _, e⟩ | ⟨rfl, _, e⟩ | ⟨rfl, _, e⟩ |
-    ⟨rfl, _, h2, hz, e⟩ | ⟨rfl, rfl, rfl, hq, e⟩ | ⟨rfl, h0, hz, _, e⟩ <;> rw [e] <;>
+    ⟨rfl, _, h2, hz, e⟩ | ⟨rfl, rfl, rfl, hq, hg, e⟩ | ⟨rfl, rfl, rfl, hq, hg, e⟩ | ⟨rfl, h0, hz, _, e⟩ <;> rw [e] <;>
     simp only [List.nodup_cons, List.mem_cons, List.cons.injEq, and_true, List.not_mem_nil, or_false,
       not_false_eq_true, List.nodup_nil]
-  omega
+  · omega
+  · omega
 
 /-- the number of probe qubits of a selected triangle among its own keys is odd -/
 theorem probeKeys_diag (hs : TS Lx Ly Lz a x y z) :
@@ -144,7 +156,7 @@ theorem probeKeys_diag (hs : TS Lx Ly Lz a x y z) :
   have hv' := hv
   unfold VertexLoc inE2 inE at hv'
   rcases probeKeys_cases hs with ⟨rfl, e⟩ | ⟨rfl, e⟩ | ⟨rfl, _, e⟩ | ⟨rfl, _, e⟩ | ⟨rfl, _, e⟩ |
-    ⟨rfl, _, h2, hz, e⟩ | ⟨rfl, rfl, rfl, hq, e⟩ | ⟨rfl, h0, hz, _, e⟩ <;> rw [e]
+    ⟨rfl, _, h2, hz, e⟩ | ⟨rfl, rfl, rfl, hq, hg, e⟩ | ⟨rfl, rfl, rfl, hq, hg, e⟩ | ⟨rfl, h0, hz, _, e⟩ <;> rw [e]
   · have := xleg_mem hv hp
     simp [List.countP_cons, show x - 1 = x + sgnX 3 from rfl, this]
   · have := yleg_mem hv hp
@@ -159,7 +171,8 @@ theorem probeKeys_diag (hs : TS Lx Ly Lz a x y z) :
     have := zleg_mem hv hp (by rw [e1]; omega)
     rw [e1] at this
     simp [List.countP_cons, show z - 1 = z + -1 from rfl, this]
-  · rw [diag_q hq]
+  · rw [diag_q hq hg]
+  · rw [diag_r hq hg]
   · have e1 := sgnZ0_pos h0
     have := zleg_mem hv hp (by rw [e1]; omega)
     rw [e1] at this
@@ -172,7 +185,8 @@ theorem probeKeys_later {b u v w : Int} (hs : TS Lx Ly Lz a x y z) (ht : TS Lx L
     (hle : mu Ly Lz [a, x, y, z] ≤ mu Ly Lz [b, u, v, w]) :
     ((probeKeys Lx Ly Lz a x y z).countP fun q => decide (q ∈ triKeys Lx Ly Lz b u v w)) % 2 = 0 := by
   rcases probeKeys_cases hs with ⟨ha, e⟩ | ⟨ha, e⟩ | ⟨ha, hn, e⟩ | ⟨ha, hn, e⟩ | ⟨ha, hx, e⟩ |
-    ⟨ha, hx, h2, hz, e⟩ | ⟨ha, rfl, rfl, hq, e⟩ | ⟨ha, h0, hz, hn, e⟩ <;> rw [e]
+    ⟨ha, hx, h2, hz, e⟩ | ⟨ha, rfl, rfl, hq, hg, e⟩ | ⟨ha, rfl, rfl, hq, hg, e⟩ | ⟨ha, h0, hz, hn, e⟩ <;>
+    rw [e]
   · have : [x - 1, y, z] ∉ triKeys Lx Ly Lz b u v w := fun h => later_3 hs ht hne hle ha h
     simp [List.countP_cons, this]
   · have : [x, y - 1, z] ∉ triKeys Lx Ly Lz b u v w := fun h => later_2 hs ht hne hle ha h
@@ -186,7 +200,9 @@ theorem probeKeys_later {b u v w : Int} (hs : TS Lx Ly Lz a x y z) (ht : TS Lx L
   · have : [x, y, z - 1] ∉ triKeys Lx Ly Lz b u v w := fun h => later_0d hs ht hne hle ha hx h2 h
     simp [List.countP_cons, this]
   · subst ha
-    exact later_q hq hs ht hne hle
+    exact later_q hq hg hs ht hne hle
+  · subst ha
+    exact later_r hq hg hs ht hne hle
   · have : [x, y, z + 1] ∉ triKeys Lx Ly Lz b u v w := fun h => later_0u hs ht hne hle ha h0 hn h
     simp [List.countP_cons, this]
 
